@@ -491,10 +491,29 @@ func sites() []site {
 	s = append(s, logqlSite("logql.quantile.sel", `quantile_over_time(0.5, {a=%s} | json x="y" | unwrap x [1m]) by (a)`, no))
 	// parsers, drop
 	s = append(s, logqlJsonPathSite("logql.json.path", `{a="b"} | json lbl=%s`))
-	s = append(s, logqlSite("logql.regexp", `{a="b"} | regexp %s`, no))
+	{
+		// every capture group of the expression adds a label to the generated map (by design): values
+		// with a group are compared with nothing here, the group-free ones with the marker
+		inner := logqlSite("logql.regexp", `{a="b"} | regexp %s`, no)
+		s = append(s, site{name: inner.name, run: func(v string) res {
+			if strings.Contains(v, "(") {
+				return rejected("capture group changes the label list by design")
+			}
+			return inner.run(v)
+		}})
+	}
 	s = append(s, logqlSite("logql.drop.val", `{a="b"} | json x="y" | drop lbl=%s`, no))
 	s = append(s, logqlSite("logql.drop.ts", `rate({a="b"} | drop lbl=%s [1m])`, no))
-	s = append(s, logqlSite("logql.lineformat.direct", `{a="b"} | json x="y" | line_format %s`, logqlOpt{direct: true}))
+	{
+		// a template action ({{.x}}) adds an argument to format() by design
+		inner := logqlSite("logql.lineformat.direct", `{a="b"} | json x="y" | line_format %s`, logqlOpt{direct: true})
+		s = append(s, site{name: inner.name, run: func(v string) res {
+			if strings.Contains(v, "{{") {
+				return rejected("template action changes the argument list by design")
+			}
+			return inner.run(v)
+		}})
+	}
 	s = append(s, logqlSite("logql.sel.direct", `{a=%s} | json x="y"`, logqlOpt{direct: true}))
 	// identifiers
 	s = append(s, logqlIdentSite("logql.ident.sel", `{%s="b"}`, func(x *logql_parser.LogQLScript) string {
